@@ -229,6 +229,9 @@ class ExprGen:
                        self.expr(draw, depth - 1, want_signal=True, excl=True))
         if k == 9 and self.allow_pow_shift:
             op = draw(st.sampled_from(["<<", ">>", "**"]))
+            if draw(st.integers(0, 3)) == 0:  # constant on the left: K ** x, K << x
+                r = Bin("AND", self.expr(draw, depth - 1, want_signal=True), Num(31 if op != "**" else 7))
+                return Bin(op, Num(draw(st.integers(-3, 9))), r)
             if draw(st.booleans()):
                 l = self.expr(draw, depth - 1, want_signal=True)
                 r = Num(draw(st.integers(0, 31) if op != "**" else st.integers(0, 6)))
@@ -540,6 +543,7 @@ def gated_memory_program(draw, steer=True, early_virtual=True):
     stmts, thresholds, cells = [], {}, []
     n_cells = draw(st.integers(1, 3))
     g = ExprGen(sc, pal, allow_typeof=False)
+    prev_enable = None
     for ci in range(n_cells):
         # data inputs
         d_names = []
@@ -575,6 +579,9 @@ def gated_memory_program(draw, steer=True, early_virtual=True):
             v = Proj(v, mty)
         pool = list(e_names)
         c = _zero_preserving(draw, pool, 2, thresholds)
+        if prev_enable is not None and draw(st.integers(0, 3)) == 0:
+            c = prev_enable  # a second cell gated by the structurally identical enable expression (written out again)
+        prev_enable = c
         stmts.append(Write(m, v, c))
         cells.append(m)
         for _ in range(draw(st.integers(1, 3))):
@@ -595,6 +602,16 @@ def gated_memory_program(draw, steer=True, early_virtual=True):
 @st.composite
 def history(draw, names, thresholds, n_steps, enable_prefix="e"):
     steps = []
+    ens = sorted(n for n in names if n.startswith(enable_prefix))
+    dats = sorted(n for n in names if n.startswith("d"))
+    if ens and dats and draw(st.booleans()):
+        # scripted prefix: data, enable on, enable off (hold), data changes while held, enable on again
+        def on(n):
+            ths = thresholds.get(n) or [0]
+            return draw(st.sampled_from([t + 1 for t in ths] + [t for t in ths] + [1, 41]))
+
+        d, e = draw(st.sampled_from(dats)), draw(st.sampled_from(ens))
+        steps += [(d, draw(int32())), (e, on(e)), (e, 0), (d, draw(int32())), (d, draw(int32())), (e, on(e))]
     for _ in range(n_steps):
         n = draw(st.sampled_from(sorted(names)))
         ths = thresholds.get(n)
@@ -812,6 +829,16 @@ def entity_program(draw, steer=True, early_virtual=True, avoid_nocond=True, max_
                 c = sc.fresh(draw, "c")
                 stmts.append(Decl("Signal", c, Bin(draw(st.sampled_from(CMPS)), Ref(n), draw(num(small_int())))))
                 e = Ref(c)
+        elif k == 9:  # conditional value as enable: (x CMP c) : y  /  : K, written directly or through a name
+            n = sc.pick(draw, sc.signals, True)
+            m2 = sc.pick(draw, sc.signals, True)
+            if n:
+                val = Ref(m2) if m2 and draw(st.booleans()) else Num(draw(st.sampled_from([-1, 0, 1, 5])))
+                e = Cond(Bin(draw(st.sampled_from(CMPS)), Ref(n), draw(num(small_int()))), val)
+                if draw(st.booleans()):
+                    c = sc.fresh(draw, "g")
+                    stmts.append(Decl("Signal", c, e))
+                    e = Ref(c)
         if e is None:
             e = Num(draw(st.sampled_from([0, 1])))
         stmts.append(Assign(var, "enable", e))
@@ -852,8 +879,8 @@ def cse_program(draw, early_virtual=True):
     vi = 0
     for _ in range(draw(st.integers(1, 3))):
         a = draw(st.sampled_from(ins))
-        op = draw(st.sampled_from(["+", "-", "*", "/", "%", "AND", "XOR", "<<"]))
-        k = Num(draw(st.integers(1, 9)))
+        op = draw(st.sampled_from(["+", "-", "*", "/", "%", "AND", "XOR", "<<", "**", ">>", "OR"]))
+        k = Num(draw(st.integers(1, 9) if op != "**" else st.integers(2, 3)))
         cmp_ = draw(st.sampled_from(CMPS))
         c = Num(draw(st.integers(-5, 20)))
         base = Bin(op, Ref(a), k)
@@ -862,9 +889,16 @@ def cse_program(draw, early_virtual=True):
             base, Proj(base, types[0]), Proj(base, types[1]), base,
             cond, Cond(cond, Num(1)), Cond(cond, Ref(a)), Cond(cond, Num(draw(st.integers(2, 9)))),
             Proj(cond, types[2]), Un("-", Ref(a)), Un("!", Ref(a)), Bin(cmp_, base, c),
+            # the same operator with swapped operands (only + * AND OR XOR commute)
+            Bin(op, k, Ref(a)), Bin(op, k, Ref(a)),
+            # same condition, copy mode, different gated values of one type
+            Cond(cond, Paren(base)), Cond(cond, Paren(Bin(draw(st.sampled_from(["+", "*", "-"])), Ref(a), Num(draw(st.integers(2, 9)))))),
+            Cond(cond, Paren(Bin("+", base, Num(1)))),
             Bin("+", Bin(op, Num(draw(st.integers(1, 5))), Num(draw(st.integers(1, 5)))), Ref(a)),
         ]
         picks = draw(st.lists(st.integers(0, len(variants) - 1), min_size=2, max_size=6))
+        if draw(st.integers(0, 2)) == 0:
+            picks = [0, variants.index(Bin(op, k, Ref(a)))] + picks[:3]  # a OP k next to k OP a
         for p in picks:
             vi += 1
             stmts.append(Decl("Signal", f"v{vi}", variants[p]))
@@ -1015,6 +1049,11 @@ def loop_case(draw, tier="quick", avoid_shadow=True):
                 return ListIter(tuple(Num(v) for v in vals)), vals
             a, b = draw(st.integers(-6, 6)), draw(st.integers(-6, 6))
             s = draw(st.sampled_from([None, 1, 2, 3, -1, -2, -3, 4, -5]))
+            if draw(st.integers(0, 9)) < 7:
+                # mostly non-empty: pick the number of iterations, then a stop that the step need not divide
+                n_it = draw(st.integers(1, 5))
+                step = s if s is not None else 1
+                b = a + n_it * step - draw(st.integers(0, abs(step) - 1)) * (1 if step > 0 else -1)
             if s is None and a > b:
                 s = -1  # the documentation does not say what a descending range without a step does
             it = Range(bound(a), bound(b), None if s is None else bound(s))
@@ -1039,8 +1078,33 @@ def loop_case(draw, tier="quick", avoid_shadow=True):
             info["nested"] = True
         else:
             stmts.append(For(var, it, tuple(_loop_body(draw, [var], inputs, pal, 10 * li, str(uid)))))
-    progA = Program(tuple(stmts))
-    progB = Program(tuple(unroll(stmts, ints)))
+    extraA, extraB = [], []
+    if draw(st.integers(0, 3)) == 0:
+        # a loop inside a function that configures an Entity parameter (and the same entity again after the loop)
+        from .lang import ExprStmt
+
+        info["func_loop"] = True
+        a, b = draw(st.integers(-2, 3)), draw(st.integers(-2, 6))
+        s_ = draw(st.sampled_from([None, 1, 2]))
+        if a > b:
+            a, b = b, a
+        vals = iteration_values(Range(Num(a), Num(b), None if s_ is None else Num(s_)), {})
+        inp = draw(st.sampled_from(inputs))
+        body = [Assign("m", "enable", Bin(">", Ref("s"), Bin("*", Ref("iz"), Num(draw(st.integers(2, 10))))))]
+        if draw(st.booleans()):
+            body.append(Decl("Entity", "lz", Place("small-lamp", Bin("+", Bin("*", Ref("iz"), Num(2)), Num(-40)), Num(-30))))
+            body.append(Assign("lz", "enable", Bin("<", Ref("s"), Ref("iz"))))
+        fbody = [For("iz", Range(Num(a), Num(b), None if s_ is None else Num(s_)), tuple(body))]
+        after = draw(st.booleans())
+        if after:
+            fbody.append(Assign("m", "enable", Bin(">", Ref("s"), Num(draw(st.integers(50, 99))))))
+        extraA = [Decl("Entity", "master", Place("small-lamp", Num(-44), Num(-36))),
+                  Func("fz", (("Entity", "m"), ("Signal", "s")), tuple(fbody)),
+                  ExprStmt(Call("fz", (Ref("master"), Ref(inp))))]
+        inl = subst(tuple(fbody), {"m": Ref("master"), "s": Ref(inp)}, {})
+        extraB = [Decl("Entity", "master", Place("small-lamp", Num(-44), Num(-36)))] + unroll(list(inl), ints)
+    progA = Program(tuple(stmts + extraA))
+    progB = Program(tuple(unroll(stmts, ints) + extraB))
     return progA, progB, info
 
 
@@ -1169,7 +1233,7 @@ POLE_OPTIONS = [None, "small", "medium", "big", "substation"]
 
 
 @st.composite
-def spread_program(draw, steer=True, far=True):
+def spread_program(draw, steer=True, far=True, small_only=False, span=None, plain=False):
     """User entities 10-60 tiles apart sharing sources (relays needed), high fan-out of single-source
     consumers, optionally a gated cell / latch (their wires bypass the router) and a scalar block."""
     pal = Palette(True)
@@ -1181,9 +1245,12 @@ def spread_program(draw, steer=True, far=True):
         stmts.append(Decl("Signal", n, SigLit(types.pop(), draw(num(small_int())))))
         ins.append(n)
     n_ent = draw(st.integers(1, 7))
-    span = draw(st.sampled_from([8, 12, 20, 30, 45, 60])) if far else 6
+    if span is None:
+        span = draw(st.sampled_from([8, 12, 20, 30, 45, 60])) if far else 6
     cells = draw(st.lists(st.tuples(st.integers(-2, 3), st.integers(-2, 2)), min_size=n_ent, max_size=n_ent, unique=True))
     protos = ["small-lamp", "small-lamp", "inserter", "transport-belt", "assembling-machine-1", "train-stop", "pump", "steel-chest"]
+    if small_only:
+        protos = ["small-lamp", "inserter", "transport-belt"]
     for i, (cx, cy) in enumerate(cells):
         proto = draw(st.sampled_from(protos))
         props = ()
@@ -1194,7 +1261,8 @@ def spread_program(draw, steer=True, far=True):
         if proto == "small-lamp" and draw(st.integers(0, 3)) == 0:
             props = (("use_colors", Num(1)), ("always_on", Num(1)), ("color_mode", Num(1)))
         var = f"ent{i + 1}"
-        stmts.append(Decl("Entity", var, Place(proto, Num(cx * span + draw(st.integers(0, 2))), Num(cy * span + draw(st.integers(0, 2))), props)))
+        jx, jy = (0, 0) if small_only else (draw(st.integers(0, 2)), draw(st.integers(0, 2)))
+        stmts.append(Decl("Entity", var, Place(proto, Num(cx * span + jx), Num(cy * span + jy), props)))
         if proto != "steel-chest" and draw(st.integers(0, 5)) != 0:
             src = draw(st.sampled_from(ins))
             k = draw(st.integers(0, 3))
@@ -1205,7 +1273,7 @@ def spread_program(draw, steer=True, far=True):
             else:
                 e = Bin(draw(st.sampled_from(CMPS)), Bin(draw(st.sampled_from(["+", "*", "%"])), Ref(src), Num(draw(st.integers(2, 7)))), draw(num(small_int())))
             stmts.append(Assign(var, "enable", e))
-    extra = draw(st.sampled_from(["none", "none", "memory", "latch", "scalar", "fanout"]))
+    extra = "none" if plain else draw(st.sampled_from(["none", "none", "memory", "latch", "scalar", "fanout"]))
     if extra == "memory":
         stmts += [Decl("Signal", "md", SigLit(types.pop(), Num(0))), Decl("Signal", "me", SigLit(types.pop(), Num(0))),
                   MemDecl("mm", types[0]), Write("mm", Proj(Ref("md"), types[0]), Bin(">", Ref("me"), Num(0))),
